@@ -1,5 +1,6 @@
 import SafeC.Dispatch
 import SafeC.Models.Inplace
+import SafeC.Models.WCase
 /-!
 # name → model dispatch, in-place family (argument positions as in `tools/fnspec.py`)
 -/
@@ -38,6 +39,12 @@ def dispatchInplace (fn : String) (c : Ctx) : Option (Prog Out) :=
   | "wcsnset_s" => do
     let d ← c.p 0; let m ← c.n 1; let v ← c.n 2; let n ← c.n 3; let b ← c.b 4
     pure (errOut (wcsnset_s c.cfg d m v n b))
+  | "wcslwr_s" => do
+    let d ← c.p 0; let m ← c.n 1; let b ← c.b 2
+    pure (errOut (wcslwr_s c.cfg d m b))
+  | "wcsupr_s" => do
+    let d ← c.p 0; let m ← c.n 1; let b ← c.b 2
+    pure (errOut (wcsupr_s c.cfg d m b))
   | _ => none
 
 end SafeC.Driver
